@@ -133,7 +133,7 @@ func c12RealBackends(ctx *Ctx) {
 		if kind == "cmd-writeonly" {
 			k = "cmd" // no getPwm command: fan2go cannot read the value back
 		}
-		sc := &Scenario{Fan: FanSpec{Kind: k, HomePath: home, HasPwm: kind != "cmd-writeonly", HasEnable: kind == "hwmon", CmdOneTool: k == "cmd" && r.Intn(2) == 0}, Plant: PlantSpec{Kind: "const", Const: 1200}, Loop: LoopSpec{Kind: "direct"},
+		sc := &Scenario{Fan: FanSpec{Kind: k, HomePath: home, ViaLoader: r.Intn(3) == 0, HasPwm: kind != "cmd-writeonly", HasEnable: kind == "hwmon", CmdOneTool: k == "cmd" && r.Intn(2) == 0}, Plant: PlantSpec{Kind: "const", Const: 1200}, Loop: LoopSpec{Kind: "direct"},
 			Map: pick(r, MapSpec{Kind: "readme"}, MapSpec{Kind: "hundred"}, genMap(r, false), genMap(r, false)), Window: 1, InitPwm: r.Intn(256), InitMode: 2, PriorRpm: 1200}
 		n := 40
 		if k == "cmd" {
